@@ -29,6 +29,9 @@ type Item struct {
 	// certificate table is 8-aligned, [PE/COFF "Attribute Certificate Table"];
 	// Mach-O: the signature blob is 16-aligned). Diff accepts a = b || 0^k, k < ZeroPad.
 	ZeroPad int
+	// Floating: the item's position among the others is not payload (a member
+	// the signing tool re-creates, compared by content only).
+	Floating bool
 }
 
 // Payload is what an independent reader sees in an artifact, minus signature metadata.
@@ -123,10 +126,12 @@ func Diff(before, after *Payload) []string {
 	last := -1
 	for _, k := range common {
 		b, a := before.Items[bi[k]], after.Items[ai[k]]
-		if ai[k] < last && !before.Unordered {
+		if b.Floating || a.Floating {
+			// position not compared
+		} else if ai[k] < last && !before.Unordered {
 			out = append(out, fmt.Sprintf("order item %q#%d moved before its predecessor", k.name, k.occ))
 		}
-		if ai[k] > last {
+		if ai[k] > last && !(b.Floating || a.Floating) {
 			last = ai[k]
 		}
 		if a.Meta != b.Meta {
